@@ -36,6 +36,24 @@ def hand_programs():
                                            [ex(bin_(op, num(2), B)) for op in ("eq", "neq", "gt", "lt", "ge", "le")] +
                                            [if_([bin_("neq", A, num(1)), bin_("and", bin_("le", A, B), bin_("or", var("X1"), var("Y1")))], [[mark("a")], [mark("b")]]),
                                             while_(bin_("neq", idx(A, num(1)), s("t")), [BREAK]), ex(bin_("neq", mem(A, "p"), call("F")))]))
+    # text literals that span several physical lines, followed on their closing line by more tokens of the same statement
+    ML = s("l1\nl2\n\nl4")
+    add("multiline-literals", prog([disp(ML, A), disp(A, ML, B), decl("L", lst(ML, num(2), s("x\ny"))), decl("D", dct(["k"], [ML])),
+                                    if_([bin_("eq", A, ML)], [[mark("a")]], [mark("b")]), while_(bin_("neq", ML, B), [BREAK]),
+                                    ex(bin_("add", ML, s("t"))), ex(mcall(A, "m", ML, num(1))), ex(asg(idx(A, num(1)), ML)), ret(ML)]))
+    # operator chains whose grouping only the precedence table decides (rendered without braces by the MinBrace configuration)
+    C, Dv = var("C"), var("D")
+    def bn(op, l, r): return bin_(op, l, r)
+    add("precedence-unbraced", prog([
+        ex(bn("div", bn("div", A, B), C)), ex(bn("div", A, bn("div", B, C))), ex(bn("mul", bn("div", A, B), C)), ex(bn("div", A, bn("mul", B, C))),
+        ex(bn("sub", bn("sub", A, B), C)), ex(bn("sub", A, bn("sub", B, C))), ex(bn("add", bn("sub", A, B), C)), ex(bn("sub", A, bn("add", B, C))),
+        ex(bn("add", A, bn("mul", B, C))), ex(bn("mul", bn("add", A, B), C)), ex(bn("add", bn("mul", A, B), bn("mul", C, Dv))), ex(bn("mul", A, bn("add", B, C))),
+        ex(bn("idiv", bn("mod", A, B), C)), ex(bn("mod", A, bn("idiv", B, C))), ex(bn("sub", bn("mul", A, B), bn("div", C, Dv))),
+        ex(bn("gt", bn("add", A, B), bn("mul", C, Dv))), ex(bn("eq", bn("sub", A, B), C)), ex(bn("xeq", A, bn("add", B, C))),
+        ex(bn("and", bn("gt", A, B), bn("lt", C, Dv))), ex(bn("or", bn("and", A, B), C)), ex(bn("or", A, bn("and", B, C))), ex(bn("and", bn("or", A, B), C)),
+        ex(bn("and", A, bn("or", B, C))), ex(bn("or", bn("or", A, B), C)), ex(bn("or", A, bn("or", B, C))), ex(bn("and", bn("and", A, B), bn("and", C, Dv))),
+        ex(bn("eq", bn("eq", A, B), C)), ex(bn("add", bn("add", bn("add", A, B), C), Dv)), ex(bn("div", bn("mul", bn("div", A, B), C), Dv)),
+        if_([bn("or", bn("and", bn("ge", A, num(1)), bn("le", A, num(9))), bn("xneq", B, NULL))], [[mark("a")]])]))
     add("member-index-chains", prog([ex(idx(idx(A, num(1)), s("k"))), ex(idx(A, bin_("add", B, num(1)))), ex(mem(mem(A, "p"), "q")), ex(mem(idx(A, num(2)), "p")), ex(idx(mem(A, "p"), var("I"))),
                                      ex(asg(idx(A, num(1)), num(5))), ex(asg(mem(A, "p"), num(6))), ex(asg(idx(mem(A, "p"), s("k")), lst(num(1))))]))
     add("calls", prog([ex(call("F")), ex(call("F", num(1), s("x"), A)), ex(call("F", call("G", num(1)), y="R")), decl("X", call("F", lst(num(1), num(2)), dct(["a"], [num(1)]))),
